@@ -56,7 +56,10 @@ def source(ident, rules, positions):
             out.append(f'#[typeshare]\n#[serde(tag = "t", content = "c")]\npub enum V{i} {{ U, #[serde(rename_all = "{r}")] Sv {{ {rust_ident(ident)}: u32 }} }}\n')
             out.append(f'#[typeshare]\n#[serde(tag = "t", content = "c", rename_all_fields = "{r}")]\npub enum W{i} {{ U, Sv {{ {rust_ident(ident)}: u32 }} }}\n')
             out.append(f'#[typeshare]\n#[serde(tag = "t", content = "c", rename_all = "{other}", rename_all_fields = "{other}")]\npub enum X{i} {{ U, #[serde(rename_all = "{r}")] Sv {{ {rust_ident(ident)}: u32 }} }}\n')
+            # MC_C16!AttrSpellings: the rule in a SECOND #[serde(..)] attribute of the container (serde merges all of them)
+            out.append(f'#[typeshare]\n#[serde(deny_unknown_fields)]\n/// doc\n#[serde(rename_all = "{r}")]\npub struct T{i} {{ pub {rust_ident(ident)}: u32 }}\n')
         if "variant" in positions:
+            out.append(f'#[typeshare]\n#[serde(deny_unknown_fields)]\n#[serde(rename_all = "{r}")]\npub enum Y{i} {{ {rust_ident(ident)} }}\n')
             out.append(f'#[typeshare]\n#[serde(rename_all = "{r}")]\npub enum E{i} {{ {rust_ident(ident)} }}\n')
             if raw:
                 out.append(f'#[typeshare]\n#[serde(rename_all = "{r}")]\npub enum Q{i} {{ r#{ident} }}\n')
@@ -69,7 +72,7 @@ def observe(res, rules):
     pd = (res.get("parsed") or {}).get("", {})
     for s in pd.get("structs", []):
         i = int(s["id"]["original"][1:])
-        obs[("field" + ("+raw" if s["id"]["original"][0] == "R" else ""), rules[i])] = s["fields"][0]["id"]["renamed"]
+        obs[("field" + {"R": "+raw", "T": "+rule-in-second-attribute"}.get(s["id"]["original"][0], ""), rules[i])] = s["fields"][0]["id"]["renamed"]
     for e in pd.get("enums", []):
         i = int(e["id"]["original"][1:])
         k = e["id"]["original"][0]
@@ -78,7 +81,7 @@ def observe(res, rules):
             if sv:
                 obs[("field+" + {"V": "variant-rule", "W": "enum-fields-rule", "X": "variant-rule-over-enum-rules"}[k], rules[i])] = sv[0]["fields"][0]["id"]["renamed"]
             continue
-        obs[("variant" + ("+raw" if k == "Q" else ""), rules[i])] = e["variants"][0]["id"]["renamed"]
+        obs[("variant" + {"Q": "+raw", "Y": "+rule-in-second-attribute"}.get(k, ""), rules[i])] = e["variants"][0]["id"]["renamed"]
     return obs
 
 
@@ -167,6 +170,10 @@ def run_idents(chk, cases, predict=None):
                     plain_bad = panicked or obs.get((pos, r)) != exp[pos][r]
                     judge_one(chk, ident, pos if plain_bad else pos + "+raw", r, exp[pos][r], obs[(pos + "+raw", r)], False)
                     events.append({"pos": pos, "rule": r, "ident": toks(ident), "panic": False, "obs": toks(obs[(pos + "+raw", r)]), "raw": True})
+                if (pos + "+rule-in-second-attribute", r) in obs:
+                    plain_bad = panicked or obs.get((pos, r)) != exp[pos][r]
+                    judge_one(chk, ident, pos if plain_bad else pos + "+rule-in-second-attribute", r, exp[pos][r], obs[(pos + "+rule-in-second-attribute", r)], False)
+                    events.append({"pos": pos, "rule": r, "ident": toks(ident), "panic": False, "obs": toks(obs[(pos + "+rule-in-second-attribute", r)]), "ctx": "second-attribute"})
                 if pos == "field":
                     for ctx in ("variant-rule", "enum-fields-rule", "variant-rule-over-enum-rules"):
                         if ("field+" + ctx, r) in obs:
